@@ -86,7 +86,7 @@ def gen_map(rs, small=False):
     for _ in range(nreg):
         if not free:
             break
-        kind = rs.weighted([(4, "mem"), (3, "memu"), (4, "fields"), (2, "cnt"), (2, "file"), (2, "array"), (4, "memory"), (1, "range")])
+        kind = rs.weighted([(4, "mem"), (3, "memu"), (4, "fields"), (2, "cnt"), (2, "file"), (2, "array"), (4, "memory"), (1, "range"), (2, "input"), (2, "output")])
         if kind in ("file", "array", "memory", "range"):
             n = 2 if kind == "file" else rs.range(2, 3) if kind == "array" else rs.choice([2, 2, 3, 4, 4, 8])
             starts = [w for w in free if all((w + i) in free for i in range(n))]
@@ -113,6 +113,12 @@ def gen_map(rs, small=False):
         e = {"kind": kind, "word": w0}
         if kind == "memu":
             e["default"] = rs.choice([0, 1234, 0xFFFFFFFF, rs.bits(32)])
+        if kind in ("input", "output"):
+            # hardware-side signal of w bits at bit offset o of the word (Input: read-only view of an entity input;
+            # Output: write-only register driving an entity output)
+            e["w"] = rs.choice([1, 4, 8, 13, 32])
+            e["o"] = rs.choice([0, 0, rs.below(33 - e["w"])]) if e["w"] < 32 else 0
+            e["how"] = rs.choice(["offpad", "offpad", "lsbs" if e["o"] == 0 else "offpad", "msbs" if e["o"] + e["w"] == 32 else "offpad"])
         if kind == "fields":
             # 1..3 non-overlapping fields
             cuts = sorted(rs.sample(list(range(1, 32)), rs.range(1, 4)))
@@ -176,6 +182,10 @@ def render_map(m, tag=""):
                 root.append(f"    r{i}: M{tag}_{i}[{off:#x}]")
             else:
                 root.append(f"    r{i}: reg32.Memory[{off:#x}:{off + 4 * e['n']:#x}]")
+        elif k == "input":
+            root.append(f"    r{i}: reg32.Input[{off:#x}]")
+        elif k == "output":
+            root.append(f"    r{i}: reg32.Output[{off:#x}]")
         elif k == "range":
             fn = "_on_read_relative_" if e["relative"] else "_on_read_"
             L += [f"class A{tag}_{i}(reg32.AddrRange, word_count={e['n']}):", f"    def {fn}(self, addr):", "        return std.leftpad(addr, 32).bitvector", ""]
@@ -187,16 +197,56 @@ def render_map(m, tag=""):
         if e["kind"] == "memory":
             init = "Null" if e["init"] is None else "[Unsigned[32](v) for v in " + repr(e["init"]) + "]"
             cfg.append(f"        self.r{i}._config_(initial={init}, noreset={e['noreset']}, mask_mode=reg32.Memory.MaskMode.{e['mode']}, inline={e['inline']}{', allow_unaligned=True' if e.get('unaligned') else ''})")
+    hw = False
+    for i, e in enumerate(m["entries"]):
+        if e["kind"] in ("input", "output"):
+            hw = True
+            how = {"lsbs": "lsbs=True", "msbs": "msbs=True", "offpad": f"offset={e['o']}, padding={32 - e['w'] - e['o']}"}[e["how"]]
+            cfg.append(f"        self.r{i}._config_(hw['{hw_name(e, tag, i)}'], {how})")
     if cfg:
-        L += ["    def _config_(self):"] + cfg
+        L += ["    def _config_(self, hw):" if hw else "    def _config_(self):"] + cfg
     L.append("")
     return L
+
+
+def hw_name(e, tag, i):
+    return f"hw_{'in' if e['kind'] == 'input' else 'out'}{tag}_{i}"
+
+
+def hw_ports(m):
+    """[(port name, 'in'|'out', width, global word, bit offset)] of the Input / Output registers of a map (or of all slaves)"""
+    out = []
+    if "slaves" in m:
+        for j, (off, size, mj) in enumerate(m["slaves"]):
+            for i, e in enumerate(mj["entries"]):
+                if e["kind"] in ("input", "output"):
+                    out.append((hw_name(e, f"S{j}", i), "in" if e["kind"] == "input" else "out", e["w"], e["word"] + off // 4, e["o"]))
+    else:
+        for i, e in enumerate(m["entries"]):
+            if e["kind"] in ("input", "output"):
+                out.append((hw_name(e, "", i), "in" if e["kind"] == "input" else "out", e["w"], e["word"], e["o"]))
+    return out
+
+
+def hw_decl(m):
+    L = []
+    for name, d, w, _, _ in hw_ports(m):
+        L.append(f"    {name} = Port.input(BitVector[{w}])" if d == "in" else f"    {name} = Port.output(BitVector[{w}], default=Null)")
+    return "\n".join(L) + ("\n" if L else "")
+
+
+def hw_dict(m):
+    return "{" + ", ".join(f"'{n}': self.{n}" for n, *_ in hw_ports(m)) + "}"
+
+
+def has_hw(mj):
+    return any(e["kind"] in ("input", "output") for e in mj["entries"])
 
 
 def render_src(m):
     if "slaves" in m:
         L = [HEAD, "from cohdl.std.axi.axi4_light.interconnect import Interconnect", ""]
-        con = ["        ic = Interconnect(axi_con)"]
+        con = [f"        hw = {hw_dict(m)}", "        ic = Interconnect(axi_con)"]
         for j, (off, size, mj) in enumerate(m["slaves"]):
             L += render_map(mj, f"S{j}")
         # reserved in seeded order (the order of reserve() is the order of the slaves inside the interconnect)
@@ -204,10 +254,11 @@ def render_src(m):
             off, size, _ = m["slaves"][j]
             con.append(f"        s{j} = ic.reserve({off:#x}, {size:#x}, prefix='s{j}_')")
         for j in m["connect_order"]:
-            con.append(f"        s{j}.connect_addr_map(RootS{j}())")
+            con.append(f"        s{j}.connect_addr_map(RootS{j}({'hw' if has_hw(m['slaves'][j][2]) else ''}))")
         arch = ARCH.replace("        axi_con.connect_addr_map(Root())\n", "\n".join(con) + "\n")
-        return "\n".join(L + ["class E(cohdl.Entity):", PORTS, arch]) + "\n"
-    return "\n".join([HEAD] + render_map(m) + ["class E(cohdl.Entity):", PORTS, ARCH]) + "\n"
+        return "\n".join(L + ["class E(cohdl.Entity):", PORTS + hw_decl(m), arch]) + "\n"
+    arch = ARCH.replace("connect_addr_map(Root())", f"connect_addr_map(Root({hw_dict(m)}))") if has_hw(m) else ARCH
+    return "\n".join([HEAD] + render_map(m) + ["class E(cohdl.Entity):", PORTS + hw_decl(m), arch]) + "\n"
 
 
 def gen_interconnect(rs):
@@ -269,6 +320,10 @@ class Model:
             elif k == "memory":
                 for i in range(e["n"]):
                     self.words[e["word"] + i] = {"kind": "memory", "wmask": 0xFFFFFFFF, "val": e["init"][i] if e["init"] else 0, "ignore_strb": e["mode"] == "IGNORE", "unaligned": bool(e.get("unaligned")), "last": i == e["n"] - 1}
+            elif k == "input":
+                self.words[e["word"]] = {"kind": "input", "wmask": 0, "val": 0, "w": e["w"], "o": e["o"]}
+            elif k == "output":
+                self.words[e["word"]] = {"kind": "output", "wmask": ((1 << e["w"]) - 1) << e["o"], "val": 0, "w": e["w"], "o": e["o"]}
             elif k == "range":
                 for i in range(e["n"]):
                     self.words[e["word"] + i] = {"kind": "range", "wmask": 0, "val": 4 * i if e["relative"] else 4 * (e["word"] + i)}
@@ -324,6 +379,8 @@ class Model:
             w["rd"] = (w["rd"] + 1) & 0xFF
             w.setdefault("rd_t", []).append(self.now)
             return v, ok
+        if w["kind"] == "output":
+            return 0, {0}  # write-only: not readable, reads like an unmapped word
         return w["val"], {w["val"]}
 
 
@@ -376,6 +433,13 @@ def simulate(m, design, ops, seed, idx, pipelined, reset_at=None, decerr=None):
     rs = rng.Stream(seed, "C20", "agent", idx)
     model = Model(m)
     idle = {"reset": 0, "axi_awaddr": 0, "axi_awprot": 0, "axi_awvalid": 0, "axi_wdata": 0, "axi_wstrb": 0, "axi_wvalid": 0, "axi_bready": 0, "axi_araddr": 0, "axi_arprot": 0, "axi_arvalid": 0, "axi_rready": 0}
+    hw = hw_ports(m)
+    hw_in = [(n, w, word, o) for n, dr, w, word, o in hw if dr == "in"]
+    hw_out = [(n, w, word, o) for n, dr, w, word, o in hw if dr == "out"]
+    in_word = {word: n for n, w, word, o in hw_in}
+    for n, w, word, o in hw_in:
+        idle[n] = 0
+    hw_hist = {n: [] for n, *_ in hw_in}
     d.start(dict(idle))
     # reset for two clocks
     for _ in range(2):
@@ -408,6 +472,11 @@ def simulate(m, design, ops, seed, idx, pipelined, reset_at=None, decerr=None):
     drive = dict(idle)
     while (wi < len(wq) or ri < len(rq) or pending_b or pending_r or accepted_aw or accepted_w) and k < limit:
         drive = dict(drive)
+        # hardware-side inputs of Input registers: change now and then, one history entry per clock
+        for n, w, word, o in hw_in:
+            if rs.below(10) == 0:
+                drive[n] = rs.choice([0, (1 << w) - 1, rs.bits(w), rs.bits(w)])
+            hw_hist[n].append(drive[n])
         # ---- master decisions for this clock (values present at the coming edge) -------------------
         # write address / data channels
         if wi < len(wq):
@@ -538,7 +607,7 @@ def simulate(m, design, ops, seed, idx, pipelined, reset_at=None, decerr=None):
             t = rq[ri]
             st["ar_hs"] += 1
             drive["axi_arvalid"] = 0
-            t = dict(t, _overlap=overlaps(busy_w, t["addr"]))
+            t = dict(t, _overlap=overlaps(busy_w, t["addr"]), _t_ar=k)
             pending_r.append(t)
             if (t["addr"] >> 2) not in model.words:
                 st["unmapped"] += 1
@@ -562,6 +631,12 @@ def simulate(m, design, ops, seed, idx, pipelined, reset_at=None, decerr=None):
                 model.read(t["addr"])  # ordering with the write in flight is unspecified: keep the counters, skip the value
             else:
                 want, okset = model.read(t["addr"])
+                wd_ = model.words.get(t["addr"] >> 2) if t["addr"] < m["words"] * 4 else None
+                if wd_ is not None and wd_["kind"] == "input":
+                    # the value the hardware signal had at some clock between the accepted address and the response
+                    okset = {v << wd_["o"] for v in hw_hist[in_word[t["addr"] >> 2]][t["_t_ar"] : k + 1]}
+                    want = sorted(okset)[0]
+                    st["input_reads"] = st.get("input_reads", 0) + 1
                 got = pre["axi_rdata"]
                 if got not in okset:
                     return "register", {"rule": "read-returns-wrong-value", "clock": k, "addr": t["addr"], "expected": want, "got": got, "register": model.words.get(t["addr"] >> 2, {}).get("kind", "unmapped")}, st, d
@@ -570,6 +645,14 @@ def simulate(m, design, ops, seed, idx, pipelined, reset_at=None, decerr=None):
             st["r_waited"] += 1
             if not pending_r:
                 return "protocol", {"rule": "rvalid-without-request", "clock": k}, st, d
+        # Output registers: the entity output shows the model's value whenever no write to the register is in flight
+        for n, w, word, o in hw_out:
+            if not overlaps(busy_w, word * 4):
+                exp_o = (model.words[word]["val"] >> o) & ((1 << w) - 1)
+                got_o = d.get(n)
+                st["output_checks"] = st.get("output_checks", 0) + 1
+                if got_o != exp_o:
+                    return "register", {"rule": "output-register-port-differs-from-written-value", "clock": k, "port": n, "expected": exp_o, "got": got_o}, st, d
         # bounded response time while the master is ready
         if pending_b:
             b_age += 1
@@ -653,7 +736,7 @@ ASSUMPTIONS = [
     "register model: a write takes effect with its B handshake; a read issued while a write to the same address is in flight is not value-checked (ordering unspecified); "
     "unmapped / hole accesses read 0 with OKAY and change nothing; bits of a Register that belong to no field read 0",
     "restricted register-map grammar (MemWord, MemUWord, Register with MemField/MemUField, counter register with PushOnNotify, nested RegFile, Array of MemWord, "
-    "Memory of 2-8 words with the four mask modes / inline or separate access processes / initial contents, AddrRange with an absolute or relative read hook; objects start at any word offset); "
+    "Input (read-only view of an entity input at a bit offset) and Output (write-only, drives an entity output) registers, Memory of 2-8 words with the four mask modes / inline or separate access processes / initial contents, AddrRange with an absolute or relative read hook; objects start at any word offset); "
     "a Memory in mask mode IGNORE writes all four bytes whatever the strobes say (documented behaviour of that mode)",
     "bounded response: 24 clocks while the master holds ready high",
     "a quarter of the maps sit behind std.axi.axi4_light.interconnect.Interconnect (2-3 slaves in size-aligned power-of-two windows, gaps between them): "
@@ -694,6 +777,8 @@ def evidence(results, tier):
         "topology": {t: len([r for r in acc if r["topology"] == t]) for t in sorted({r["topology"] for r in acc})},
         "accesses_outside_every_slave_window(DECERR expected)": agg.get("decerr_expected", 0),
         "unaligned_accesses(Memory with allow_unaligned)": agg.get("unaligned", 0),
+        "reads_of_Input_registers(checked against the signal history)": agg.get("input_reads", 0),
+        "Output_register_port_checks": agg.get("output_checks", 0),
         "simulated_clocks": agg.get("clocks", 0),
         "handshakes": {k: agg.get(k, 0) for k in ("aw_hs", "w_hs", "b_hs", "ar_hs", "r_hs")},
         "schedule_reach": {"aw_before_w": agg.get("aw_first", 0), "w_before_aw": agg.get("w_first", 0), "aw_and_w_same_clock": agg.get("same_clock", 0), "next_write_accepted_while_b_outstanding": agg.get("pipelined_writes", 0), "clocks_bvalid_waited_for_bready": agg.get("b_waited", 0), "clocks_rvalid_waited_for_rready": agg.get("r_waited", 0), "unmapped_or_hole_accesses": agg.get("unmapped", 0), "partial_strobe_writes": agg.get("partial_strobe", 0)},
